@@ -37,7 +37,10 @@ CONSTANTS Betas,     \* set of <<a, b, h>>: a^2 + b^2 = h^2, b > 0, h > 0; beta 
           Moms,      \* set of <<m, E, x, y, z>>: integers, m > 0, E > 0, m^2 = E^2 - x^2 - y^2 - z^2
           Starts,    \* subset of Moms: initial momenta
           MaxDepth,  \* number of transformations in a chain
-          RestCap    \* ToRest is taken only while the entries of p are at most this (32-bit arithmetic)
+          Cap,       \* bound on |num| and den of every entry of M and p (32-bit arithmetic)
+          RestCap,   \* ToRest is taken only while the entries of p are at most this (32-bit arithmetic)
+          Dev        \* named deviations of the reference, {} in every real check; non-empty only to show that
+                     \* the invariants and laws are not vacuous: "RotYSign", "BoostZSwap", "BoostNoInverse"
 
 ------------------------------------------------------------------------------
 (* exact rationals *)
@@ -91,7 +94,7 @@ IsVec(v) == DOMAIN v = Ix /\ \A i \in Ix : IsRat(v[i])
 EtaForm(L, i, j) ==
   RSub(RMul(L[1][i], L[1][j]),
        RAdd(RMul(L[2][i], L[2][j]), RAdd(RMul(L[3][i], L[3][j]), RMul(L[4][i], L[4][j]))))
-EtaOrth(L) == \A i \in Ix : \A j \in Ix : EtaForm(L, i, j) = Eta[i][j]
+EtaOrth(L) == \A i \in Ix : \A j \in i..4 : EtaForm(L, i, j) = Eta[i][j]        \* the form is symmetric in i, j
 Minkowski(v) == RSub(RSq(v[1]), RAdd(RSq(v[2]), RAdd(RSq(v[3]), RSq(v[4]))))
 Neg3(v) == <<v[1], RNeg(v[2]), RNeg(v[3]), RNeg(v[4])>>
 
@@ -101,6 +104,9 @@ Neg3(v) == <<v[1], RNeg(v[2]), RNeg(v[3]), RNeg(v[4])>>
 Drop(r, j) == CASE j = 1 -> <<r[2], r[3], r[4]>> [] j = 2 -> <<r[1], r[3], r[4]>>
                 [] j = 3 -> <<r[1], r[2], r[4]>> [] OTHER -> <<r[1], r[2], r[3]>>
 Max2(a, b) == IF a > b THEN a ELSE b
+VecBig(v) == Max2(Max2(Max2(Abs(v[1][1]), v[1][2]), Max2(Abs(v[2][1]), v[2][2])),
+                  Max2(Max2(Abs(v[3][1]), v[3][2]), Max2(Abs(v[4][1]), v[4][2])))       \* largest |num| or den
+Big(L) == Max2(Max2(VecBig(L[1]), VecBig(L[2])), Max2(VecBig(L[3]), VecBig(L[4])))
 SmallCap == 90                                            \* 24 * 90^4 < 2^31
 LcmCap(a, b) == IF a > SmallCap THEN a ELSE (a \div GCD(a, b)) * b
 DenLcm(L) ==
@@ -148,7 +154,7 @@ Proper(L) == EtaOrth(L) /\ DetOne(L) /\ RLe(One, L[1][1])
 RefBoost(m, q) ==
   LET k == RInv(RMul(m, RAdd(q[1], m)))                \* 1 / (m (E + m))
       S(i, j) == RAdd(IF i = j THEN One ELSE Zero, RMul(RMul(q[i], q[j]), k))
-      T(i) == RNeg(RDiv(q[i], m))
+      T(i) == IF "BoostNoInverse" \in Dev /\ i = 2 THEN RDiv(q[i], m) ELSE RNeg(RDiv(q[i], m))
   IN  <<<<RDiv(q[1], m), T(2), T(3), T(4)>>,
         <<T(2), S(2, 2), S(2, 3), S(2, 4)>>,
         <<T(3), S(3, 2), S(3, 3), S(3, 4)>>,
@@ -157,12 +163,13 @@ MassOK(m, q) == RSign(m) > 0 /\ RSign(q[1]) > 0 /\ RSq(m) = Minkowski(q)
 \* boost along z with velocity beta; gamma is the witness of 1/sqrt(1 - beta^2)
 GammaOK(beta, gamma) == RSign(gamma) > 0 /\ RMul(RSq(gamma), RSub(One, RSq(beta))) = One
 RefBoostZ(beta, gamma) ==
-  LET gb == RMul(gamma, beta)
+  LET gb == IF "BoostZSwap" \in Dev THEN beta ELSE RMul(gamma, beta)
   IN  <<<<gamma, Zero, Zero, RNeg(gb)>>, <<Zero, One, Zero, Zero>>, <<Zero, Zero, One, Zero>>, <<RNeg(gb), Zero, Zero, gamma>>>>
 ZMom(beta, gamma) == <<gamma, Zero, Zero, RMul(gamma, beta)>>       \* mass 1
 \* active rotations by the angle whose (cos, sin) = (c, s)
 CircleOK(c, s) == RAdd(RSq(c), RSq(s)) = One
-RefRotY(c, s) == <<<<One, Zero, Zero, Zero>>, <<Zero, c, Zero, s>>, <<Zero, Zero, One, Zero>>, <<Zero, RNeg(s), Zero, c>>>>
+RefRotY(c, s) == <<<<One, Zero, Zero, Zero>>, <<Zero, c, Zero, s>>, <<Zero, Zero, One, Zero>>,
+                   <<Zero, IF "RotYSign" \in Dev THEN s ELSE RNeg(s), Zero, c>>>>
 RefRotZ(c, s) == <<<<One, Zero, Zero, Zero>>, <<Zero, c, RNeg(s), Zero>>, <<Zero, s, c, Zero>>, <<Zero, Zero, Zero, One>>>>
 CircleAdd(a, b) == <<RSub(RMul(a[1], b[1]), RMul(a[2], b[2])), RAdd(RMul(a[2], b[1]), RMul(a[1], b[2]))>>
 
@@ -198,8 +205,11 @@ Init == /\ \E q \in Starts : p0 = VecOf(q) /\ mass = MassOf(q)
         /\ p = p0 /\ M = Id /\ n = 0 /\ prev = Id
         /\ last = [a |-> "Init", par |-> <<>>]
 
+\* Chains whose accumulated entries outgrow Cap are not part of the model: squares of the
+\* entries (eta-orthogonality, mass) must stay inside TLC's 32-bit integers.
 Apply(L, name, par) ==
   /\ M' = MMul(L, M) /\ p' = MVec(L, p) /\ prev' = M
+  /\ Big(M') <= Cap /\ VecBig(p') <= Cap
   /\ n' = n + 1 /\ last' = [a |-> name, par |-> par]
   /\ UNCHANGED <<p0, mass>>
 
@@ -208,8 +218,6 @@ ApplyRotY(a) == n < MaxDepth /\ Apply(RefRotY(CosSin(a)[1], CosSin(a)[2]), "RotY
 ApplyRotZ(a) == n < MaxDepth /\ Apply(RefRotZ(CosSin(a)[1], CosSin(a)[2]), "RotZ", a)
 ApplyBoost(q) == n < MaxDepth /\ Apply(RefBoost(MassOf(q), VecOf(q)), "Boost", q)
 Moving(v) == v[2][1] # 0 \/ v[3][1] # 0 \/ v[4][1] # 0
-VecBig(v) == Max2(Max2(Max2(Abs(v[1][1]), v[1][2]), Max2(Abs(v[2][1]), v[2][2])),
-                  Max2(Max2(Abs(v[3][1]), v[3][2]), Max2(Abs(v[4][1]), v[4][2])))
 \* B(p) has entries of the size of VecBig(p)^3: the guard keeps M' inside 32 bits
 ToRest == n < MaxDepth /\ Moving(p) /\ VecBig(p) <= RestCap /\ Apply(RefBoost(mass, p), "ToRest", <<>>)
 Negate ==
@@ -232,7 +240,8 @@ InvEta == EtaOrth(M)
 InvDet == DetOne(M)
 InvOrthochronous == RLe(One, M[1][1])
 InvTransport == p = MVec(M, p0)
-InvMass == Minkowski(p) = RSq(mass) /\ RSign(p[1]) > 0
+\* (a consequence of InvEta and InvTransport; evaluated directly only while the squares fit)
+InvMass == RSign(p[1]) > 0 /\ (VecBig(p) <= 200 => Minkowski(p) = RSq(mass))
 InvInverse == MMul(MMul(Eta, MMul(Transpose(M), Eta)), M) = Id        \* M^-1 = eta M^T eta
 
 \* ---- the laws of the property, as action properties ---------------------------
@@ -242,7 +251,7 @@ LawInverse == [][last'.a = "Boost" =>
                   MMul(RefBoost(MassOf(last'.par), VecOf(NegMom(last'.par))), M') = M]_vars
 LawParity == [][(last.a = "Boost" /\ last'.a = "Negate") =>
                   M' = MMul(RefBoost(MassOf(last.par), VecOf(NegMom(last.par))), MMul(Par, MMul(prev, Par)))]_vars
-LawNegate == [][last'.a = "Negate" => p'[1] = p[1] /\ Minkowski(p') = Minkowski(p)
+LawNegate == [][last'.a = "Negate" => p'[1] = p[1] /\ (VecBig(p) <= 200 => Minkowski(p') = Minkowski(p))
                                        /\ \A i \in 2..4 : RAdd(p'[i], p[i]) = Zero]_vars
 LawZAgree == [][last'.a = "BoostZ" =>
                   M' = MMul(RefBoost(One, ZMom(BetaOf(last'.par), GammaOf(last'.par))), M)]_vars
